@@ -212,7 +212,7 @@ pub struct Tmpl {
     pub functions: bool,
 }
 
-pub const TEMPLATES: [&str; 22] = [
+pub const TEMPLATES: [&str; 25] = [
     "A + [1, 2].map(A, A * 2)[0] + A",
     "[[1, 2], [3]].map(A, A.map(B, B + 1))",
     "[1].map(A, A)[0] + A",
@@ -239,6 +239,10 @@ pub const TEMPLATES: [&str; 22] = [
     "[0, 2, 3].exists(A, A == A * A)",
     "[2, 3].map(A, [1, 5].exists(A, A == A * A))",
     "[1, 5, 25].exists(B, A * A == B) || [1, 5].all(A, [1, 25].exists(B, B == A * A))",
+    // a one-element list over an outer variable, whose name a nested macro rebinds while the body still mentions the element
+    "[B].map(A, [10, 20].map(B, A + B))",
+    "[A].map(B, [7].map(A, [A, B]))",
+    "[B].map(A, [[1], [2, 3]].map(B, [A, B.size()]))",
 ];
 
 fn instantiate(t: &Tmpl) -> String {
@@ -302,6 +306,9 @@ fn template_expr(t: &Tmpl) -> E {
         18 => mac(Mac::Map, l(vec![u(1000), u(2000)]), &a, l(vec![mac(Mac::Map, l(vec![f(1000.0), f(2000.0), f(3000.0)]), &bb, l(vec![v(&a), v(&bb)])), l(vec![v(&a)])])),
         19 => mac(Mac::Exists, l(vec![i(0), i(2), i(3)]), &a, E::bin(O::Eq, v(&a), E::bin(O::Mul, v(&a), v(&a)))),
         20 => mac(Mac::Map, l(vec![i(2), i(3)]), &a, mac(Mac::Exists, l(vec![i(1), i(5)]), &a, E::bin(O::Eq, v(&a), E::bin(O::Mul, v(&a), v(&a))))),
+        22 => mac(Mac::Map, l(vec![v(&bb)]), &a, mac(Mac::Map, l(vec![i(10), i(20)]), &bb, E::bin(O::Add, v(&a), v(&bb)))),
+        23 => mac(Mac::Map, l(vec![v(&a)]), &bb, mac(Mac::Map, l(vec![i(7)]), &a, l(vec![v(&a), v(&bb)]))),
+        24 => mac(Mac::Map, l(vec![v(&bb)]), &a, mac(Mac::Map, l(vec![l(vec![i(1)]), l(vec![i(2), i(3)])]), &bb, l(vec![v(&a), E::mcall(v(&bb), "size", vec![])]))),
         _ => E::bin(
             O::Or,
             mac(Mac::Exists, l(vec![i(1), i(5), i(25)]), &bb, E::bin(O::Eq, E::bin(O::Mul, v(&a), v(&a)), v(&bb))),
